@@ -778,6 +778,10 @@ func (g *Gen) Value() interface{} {
 		t := kTypes[g.ch.Intn(len(kTypes), "top.k")]
 		p := reflect.New(t)
 		g.fill(p.Elem(), 0)
+		if g.ch.Intn(4, "top.byvalue") == 1 {
+			g.note("top.byvalue")
+			return p.Elem().Interface() // a struct passed by value
+		}
 		return p.Interface()
 	case TopScalar:
 		switch g.ch.Intn(7, "top.scalar") {
